@@ -104,9 +104,17 @@ def r1(ctx, fi):
     # normalisation
     dxr = U.single_def(fi.node, 'dx_reg')
     dxc = U.single_def(fi.node, 'dx_core')
+    def _widths(e, x):
+        # x[1:] - x[:-1], or np.diff(x) (first difference along the last
+        # axis: the same thing for the 1-D bound vectors, which the walk
+        # above indexes with one scalar index)
+        if isinstance(e, ast.Call) and _s(e.func) in ('np.diff',
+                                                       'numpy.diff') and \
+                len(e.args) == 1 and not e.keywords:
+            return _s(e.args[0]) == x
+        return _s(e) == '%s[1:] - %s[:-1]' % (x, x)
     ok = dxr is not None and dxc is not None and \
-        _s(dxr) == '%s[1:] - %s[:-1]' % (reg, reg) and \
-        _s(dxc) == '%s[1:] - %s[:-1]' % (core, core)
+        _widths(dxr, reg) and _widths(dxc, core)
     ctx.require(ok, 'C10.R1', fi, dxr if dxr is not None else fi.node,
                 'cell widths are differences of consecutive bounds of the '
                 'respective mesh', key=fi.full + ' | widths')
